@@ -5,7 +5,7 @@ META = {
     "technique": "TLC model checking of NsqdAbs/NsqdAbsMC and NsqdCore; every TLC-enumerated interleaving of operation pairs "
                  "forced on the real daemon through yield points (gated replay) and compared with the model's prediction; traces of a real in-process nsqd (verif hooks + client-side "
                  "observations) from the seeded 'flow' and 'core' drivers validated against NsqdAbs by TLC; black-box "
-                 "ledger on client-visible frames and /stats",
+                 "ledger on client-visible frames and /stats; NsqdTopic interleavings of topic pause / unpause with publishes and channel-list refreshes forced on the real daemon",
     "design_ref": "5/C03",
 }
 
@@ -16,6 +16,10 @@ def run(ctx):
     import pairs
     # binding A': every interleaving (TLC, NsqdCore) of two operations' critical sections forced on the real daemon
     pairs.run_pairs(ctx, "C03", pairs=[p for p in pairs.all_pairs() if "EMPTY" in p or "DELIVER" in p] + pairs.TRIPLES, sample=None if not ctx.quick else 230)
+    import tpairs
+    # ... and at the topic level (NsqdTopic): a topic whose pause was acknowledged hands nothing more to its channels, whatever
+    # channel-list refreshes, publishes and deletions run alongside
+    tpairs.run_tpairs(ctx, "C03", only=lambda t: ({"PAUSE", "UNPAUSE"} & set(t) or t[3] == "paused") and "TEXIT" not in t)
     n = 16 if ctx.quick else 120
     corelib.run_modes(ctx, "C03", [("flow", n), ("core", n // 2)])
     if not ctx.quick:
